@@ -8,6 +8,7 @@ import orswot_abs
 
 CONFIGS = ['prod']
 EXPLANATION = (
+    "PURE: no operation of the set or of its version vectors lets an ambient reading (wall clock, monotonic clock, randomness, environment, thread / process id — directly or through a workspace helper that returns one) decide a branch, a returned value or a stored value: the outcome is a function of the set and the operation (call graph from every method of OrSWotSet / NodeVersions + derived-from relation per body; the crate's own wall-clock helper is the positive control). VSEM also interprets arithmetic done directly on the PACKED word of a stamp (word - k, checked / saturating) against the layout HLCTimestamp::new really packs: k must be the forgiveness seconds shifted to the seconds field. "
     'A-SEM: the five keyspace-actor handlers interpreted against every answer of storage (the C02 handler summaries re-evaluated): an operation is written exactly when the set\'s gate accepts it, whatever its source. '
     'T2: every constructor that packs a caller-supplied Duration refuses seconds above 2^32 - 1 before the packer is reached (the order of the packed words is the order of the times only for seconds the field can hold). '
     'SEM (primary): the per-key transfer functions of insert_with_source / delete_with_source over the 7 abstract inputs (key absent / live / tombstoned, s'
@@ -143,6 +144,9 @@ def check_R(ctx, facts):
 
 def check(ctx):
     facts = ctx.facts('prod')
+    # PURE (round 8, C04h: the mutators dropped operations stamped too far ahead of the replica's wall clock): set operations read no ambient input
+    import purity
+    purity.check_pure_core(ctx, facts, 'C04.PURE')
     # T2: "later time = larger word" holds only for seconds the seconds field can hold: the constructor refuses the rest (= C10.E7)
     import c10
     c10.check_constructor_range(ctx, facts, rule='C04.T2')
